@@ -189,8 +189,12 @@ type injector struct {
 	verbs     []string // verb of every call seen
 	hitVerb   string   // verb of the call hit by the LAST fault of the list (the one a run is classified by)
 	hitName   string
-	stormLeft int  // Updates that still answer Conflict
-	skipped   bool // that fault was not applicable to the verb of the call at its position
+	stormLeft int // Updates that still answer Conflict
+	// failLists: the next failLists LIST calls of the client fail (failListsLost: with a timeout instead of a 503)
+	failLists     int
+	failListsLost bool
+	listsFailed   int
+	skipped       bool // that fault was not applicable to the verb of the call at its position
 	// onThirdParty tells the run's model that the API state of name was changed by the injected third party
 	onThirdParty func(name string, now val)
 	// interleave: run once, between two API calls of the operation in progress (right before the interleaveAt-th call
@@ -256,6 +260,16 @@ func (in *injector) react(a k8stesting.Action) (bool, runtime.Object, error) {
 				return true, nil, errDead
 			}
 		}
+	}
+	if in.failLists > 0 && verb == "list" {
+		in.failLists--
+		in.listsFailed++
+		in.calls++
+		in.verbs = append(in.verbs, verb)
+		if in.failListsLost {
+			return true, nil, apierrors.NewTimeoutError("injected: LIST timed out", 1)
+		}
+		return true, nil, apierrors.NewServiceUnavailable("injected: apiserver unavailable")
 	}
 	if in.stormLeft > 0 && verb == "update" {
 		in.stormLeft--
